@@ -12,7 +12,7 @@ RULE = ("random histories (file-system operations interleaved with sync full/-S 
         "1..4 splits, io-cache 1/3/128); after EVERY command each content copy is decoded by the independent parser, the map "
         "invariants are checked and the parity oracle (GF product over the version store) is compared with the parity files "
         "for every stripe whose allocated blocks are all BLK; the ordering 'every written parity file is fsynced before a content save' is "
-        "counted on sync event logs as an observation only (no verdict: a process kill cannot lose page-cache data). A case = one history; non-trivial when at least one "
+        "counted on sync event logs as an observation only (no verdict: a process kill cannot lose page-cache data). Scripted motifs (20 % of the steps start one) walk REP/CHG/DELETED corner states and run fix -e/-b on a bad-marked stripe one of whose files was rewritten by the user. A case = one history; non-trivial when at least one "
         "synced stripe with data was compared; distinct by (configuration, command sequence).")
 
 SYNC_VARIANTS = [
